@@ -5,7 +5,9 @@ PROPS = {'C01': {'assumptions': ['hostile bytes inside histories are decoded und
          'budget_quick': 20,
          'budget_thorough': 150,
          'lanes_quick': ['D', 'R'],
-         'lanes_thorough': ['D', 'R'],
+         'lanes_thorough': ['D', 'R', 'M'],
+         'max_cases_miri': 6,
+         'miri_workers': 6,
          'required_counters': ['cover:kind:BTreeMap',
                                'cover:kind:HashMap',
                                'cover:kind:recursive',
@@ -60,7 +62,9 @@ PROPS = {'C01': {'assumptions': ['hostile bytes inside histories are decoded und
          'budget_quick': 20,
          'budget_thorough': 150,
          'lanes_quick': ['D', 'R'],
-         'lanes_thorough': ['D', 'R'],
+         'lanes_thorough': ['D', 'R', 'M'],
+         'max_cases_miri': 8,
+         'miri_workers': 6,
          'required_counters': ['family:native-corpus', 'family:untyped', 'agree:to_bytes'],
          'rule': '(a) 0..3 generated values of corpus Rust types through IDLBuilder::arg/serialize_to_vec; (b) generated (environment with aliases, knots, '
                  'mutual recursion, shared sub-types; types; values; some labels as names) through IDLArgs::to_bytes_with_types and '
@@ -112,8 +116,10 @@ PROPS = {'C01': {'assumptions': ['hostile bytes inside histories are decoded und
          'budget_quick': 25,
          'budget_thorough': 180,
          'lanes_quick': ['D', 'R'],
-         'lanes_thorough': ['D', 'R', 'A', 'V'],
+         'lanes_thorough': ['D', 'R', 'A', 'V', 'M'],
+         'max_cases_miri': 8,
          'max_cases_valgrind': 300,
+         'miri_workers': 6,
          'required_counters': ['family:crafted-bombs',
                                'family:mutated-native-messages',
                                'family:mutated-wire-messages',
@@ -171,7 +177,9 @@ PROPS = {'C01': {'assumptions': ['hostile bytes inside histories are decoded und
          'budget_thorough': 120,
          'exhaustive_whole': False,
          'lanes_quick': ['D', 'R'],
-         'lanes_thorough': ['D', 'R'],
+         'lanes_thorough': ['D', 'R', 'M'],
+         'max_cases_miri': 12,
+         'miri_workers': 6,
          'required_counters': ['cover:exhaustive-strings', 'cover:len9', 'cover:len10', 'cover:len19', 'cover:len20', 'cover:len25+', 'family:values'],
          'rule': 'EXHAUSTIVE: all byte strings of length <= 2 (quick) / <= 3 (thorough) through Nat::decode, Int::decode, leb128::decode_nat, decode_int; '
                  'boundary strings of 7..11, 17..22, 37..38 bytes with every pattern in the top two groups; random strings <= 40 bytes; integers +-2^k+-{0,1}, '
@@ -321,6 +329,8 @@ PROPS = {'C01': {'assumptions': ['hostile bytes inside histories are decoded und
          'budget_thorough': 180,
          'lanes_quick': ['D', 'R'],
          'lanes_thorough': ['D', 'R', 'A', 'V', 'M'],
+         'max_cases_miri': 6,
+         'miri_workers': 6,
          'required_counters': ['family:token-soup',
                                'family:one-token-mutants',
                                'family:valid-sentences',
@@ -480,6 +490,8 @@ PROPS = {'C01': {'assumptions': ['hostile bytes inside histories are decoded und
          'budget_thorough': 90,
          'lanes_quick': ['D', 'R'],
          'lanes_thorough': ['D', 'R', 'M'],
+         'max_cases_miri': 3,
+         'miri_workers': 6,
          'required_counters': ['cover:bytes:legal',
                                'cover:bytes:overlong',
                                'cover:len%5=0',
